@@ -31,32 +31,32 @@ RULES = [
     (r"standardizer::to_standard_form$", "index", r".*", LM + "free_variables holds indices produced by enumerate() over `variables`; rows and objective have one coefficient per variable; `variables` only grows before the removal"),
     (r"standardizer::(to_standard_form|normalize_constraint)$", "arith", r".*", COUNTER),
     (r"milp_solver::solve_milp_lp_problem_with$", "unwrap", r"domain\.get\(", LM + "every variable of the list has a domain entry"),
-    (r"milp_solver::solve_milp_lp_problem_with$", "index", r"objective\[i\]", "guarded at function entry: `if objective.len() != variables.len() { return Err }`, i enumerates variables"),
+    (r"milp_solver::solve_milp_lp_problem_with$", "index", r"objective\[i\]", "guarded at function entry: `if objective.len() != variables.len() { return Err }`, i enumerates variables", ["before:objective.len() != variables.len()"]),
     (r"simplex_solver::solve_real_lp_problem_micro_lp$", "index", r"obj\[i\]", LM + "the objective has one coefficient per variable, i enumerates the variables"),
     (r"simplex_solver::solve_real_lp_problem_micro_lp$", "index", r"optimal_solution\[", "microlp::Solution indexed by a Variable created by the very Problem that was solved"),
-    (r"good_lp::solve_with_good_lp$", "index", r"created_variables\[index\]", "guarded: `if constraint.coefficients().len() != variables.len() { return Err }` and created_variables has one entry per variable"),
+    (r"good_lp::solve_with_good_lp$", "index", r"created_variables\[index\]", "guarded: `if constraint.coefficients().len() != variables.len() { return Err }` and created_variables has one entry per variable", ["before:constraint.coefficients().len() != variables.len()"]),
     (r"BoundsAnalyzer::propagate_affine_constraints$", "index", r".*", "forms and queued have constraints.len() entries (built by map / vec![..; len]); every index comes from 0..constraints.len() or from `dependencies`, filled with enumerate() indices"),
-    (r"BoundsAnalyzer::propagate_affine_constraints$", "arith", r"steps \+= 1", "steps < max_steps is tested just before"),
+    (r"BoundsAnalyzer::propagate_affine_constraints$", "arith", r"steps \+= 1", "steps < max_steps is tested just before", ["before:steps >= max_steps"]),
     (r"BoundsAnalyzer::tighten_affine_form$", "index", r".*", "prefixes and suffixes have terms.len() + 1 entries, index ranges over 0..terms.len() / enumerates form.coefficients (same length as terms)"),
     (r"BoundsAnalyzer::tighten_affine_form$", "arith", r"\(index \+ 1\)", "index < terms.len()"),
     (r"model::Exp>::linearize$", "index", r"operands\[[01]\]", "operands = linearize_binary_operands(&[lhs, rhs]), which returns exactly one entry per input or an error"),
-    (r"model::Exp>::linearize$", "arith", r"\(operands\.len\(\) - 1\)", "the And arm returns early on `exps.is_empty()` and operands.len() == exps.len()"),
+    (r"model::Exp>::linearize$", "arith", r"\(operands\.len\(\) - 1\)", "the And arm returns early on `exps.is_empty()` and operands.len() == exps.len()", ["before:exps.is_empty()"]),
     (r"model::Exp>::linearize$", "arith", r".*_count \+= 1", COUNTER),
     (r"linearizer::(lower_logic_assertion|directional_logic_witness)$", "index", r"operands\[[01]\]", "operands = linearize_binary_operands(&[lhs, rhs]), which returns exactly one entry per input or an error"),
     (r"linearizer::directional_logic_witness$", "arith", r".*_count \+= 1", COUNTER),
     (r"linearizer::linearize_extreme$", "index", r"(operand_bounds\[|exps\[\*index\])", "operand_bounds has exps.len() entries; index/other_index range over 0..exps.len() and retained_indices only holds such indices"),
-    (r"linearizer::linearize_extreme$", "index", r"retained_indices\[0\]", "guarded: `if retained_indices.is_empty() { return Err }` and `if retained_indices.len() == 1` just before"),
+    (r"linearizer::linearize_extreme$", "index", r"retained_indices\[0\]", "guarded: `if retained_indices.is_empty() { return Err }` and `if retained_indices.len() == 1` just before", ["retained_indices.len() == 1"]),
     (r"linearizer::linearize_extreme$", "arith", r".*_count \+= 1", COUNTER),
     (r"linearizer::extract_coeffs$", "index", r"vec\[\*index\]", "vec has vars.len() entries and every value of the index map is an enumerate() position of that list"),
-    (r"linearizer::is_binary_context$", "unwrap", r"get_index\(0\)", "inside the match arm `1 =>` on context.vars().len()"),
+    (r"linearizer::is_binary_context$", "unwrap", r"get_index\(0\)", "inside the match arm `1 =>` on context.vars().len()", ["arm:1"]),
     (r"Linearizer::linearize$", "arith", r"counter \+= 1", "bounded by the number of row names in use (one candidate per taken name)"),
     (r"LinearModel as std::fmt::Display>::fmt$", "index", r"self\.variables\[i\]", LM + "every row and the objective have one coefficient per variable; i enumerates them"),
     (r"StandardLinearModel as std::fmt::Display>::fmt$", "index", r"self\.variables\[i\]", SHAPE + "i enumerates a row / the objective, which have one entry per variable"),
     (r"LinearModel::calc_(objective|constraints)$", "panic", r"panic!", "only on a length mismatch; every caller in the solver bridges passes one value per model variable (H-COLUMNS, C04)"),
     (r"LinearModel::to_lp_format$", "arith", r"suffix \+= 1", "bounded by the number of user-written row names"),
-    (r"model::simplify_logic_nary$", "unwrap", r"into_iter\(\)\.next\(\)", "inside the match arm `1 =>` on result.len()"),
+    (r"model::simplify_logic_nary$", "unwrap", r"into_iter\(\)\.next\(\)", "inside the match arm `1 =>` on result.len()", ["arm:1"]),
     (r"TransformerContext::declare_variable$|TypeCheckerContext::declare_variable$", "unwrap", r"frames\.last_mut\(\)", "frames is created with a root frame and pop_scope refuses to pop the last one (`if self.frames.len() <= 1 { return Err }`)"),
-    (r"::pop_scope$", "unwrap", r"frames\.pop\(\)", "guarded: `if self.frames.len() <= 1 { return Err }` just before"),
+    (r"::pop_scope$", "unwrap", r"frames\.pop\(\)", "guarded: `if self.frames.len() <= 1 { return Err }` just before", ["before:self.frames.len() <= 1"]),
     (r"transformer_context::assert_no_duplicates_in_domain$", "arith", r"\*count \+= 1", "counts declarations of one name: bounded by the number of declarations"),
     (r"DomainVariable::increment_usage$", "arith", r"usage_count \+= 1", COUNTER),
     (r"pre_model::parse_problem_source$|utils::InputSpan::from_(pair|span)$", "arith", r".*", "pest guarantees end >= start for a span"),
@@ -65,17 +65,17 @@ RULES = [
     (r"recursive_set_resolver::recursive_set_resolver$", "arith", r"\(current_level \+ 1\)", "current_level < sets.len() because sets.get(current_level) succeeded"),
     (r"math_utils::float_eq_precision$", "arith", r"-\(precision as _\)", "negation of a u8 widened to i32"),
     (r"WithType>::get_type$", "panic", r"unreachable!", "inner match on the operator inside the arm that only matches Add|Sub|Mul|Div"),
-    (r"iterable_utils::flatten_primitive_array_values$", "panic", r"unreachable!", "guarded: `if !all_equal_type { return Anys }` -- every element has first_kind, which selects the arm"),
+    (r"iterable_utils::flatten_primitive_array_values$", "panic", r"unreachable!", "guarded: `if !all_equal_type { return Anys }` -- every element has first_kind, which selects the arm", ["before:!all_equal_type"]),
     (r"ZipArrays as .*::return_type$", "panic", r"unreachable!", "inside the else branch of `if !all_iterable`: every type is PrimitiveKind::Iterable"),
-    (r"ZipArrays as .*::call$", "unwrap", r"\.min\(\)", "guarded: `if len == 0 { return }` -- the list of iterables is not empty"),
+    (r"ZipArrays as .*::call$", "unwrap", r"\.min\(\)", "guarded: `if len == 0 { return }` -- the list of iterables is not empty", ["before:len == 0"]),
     (r"ZipArrays as .*::call$", "index", r"p\[i\]", "i < shortest = min of the lengths"),
-    (r"Array(Difference|Intersection|Union) as .*::call$", "index", r"args\[[01]\]", "guarded: `if args.len() != 2 { return Err }` at function entry"),
-    (r"exp_parser::parse_exp_leaf$", "unwrap", r"iter\.next\(\)", "guarded: `if exps.len() < 2 { return Err }` before the two next() calls"),
+    (r"Array(Difference|Intersection|Union) as .*::call$", "index", r"args\[[01]\]", "guarded: `if args.len() != 2 { return Err }` at function entry", ["before:args.len() != 2"]),
+    (r"exp_parser::parse_exp_leaf$", "unwrap", r"iter\.next\(\)", "guarded: `if exps.len() < 2 { return Err }` before the two next() calls", ["before:exps.len() < 2"]),
     (r"(exp_parser::parse_exp_leaf|other_parser::parse_compound_variable_index|other_parser::parse_variable|other_parser::parse_variable_type)$", "index", r"as_str\(\)\[ops::RangeFrom\{start: 1\}\]", "the pair is an escaped_compound_variable, which the grammar starts with the one-byte literal `\\\\`: the text is non-empty and byte 1 is a char boundary"),
-    (r"other_parser::parse_primitive$", "(index|arith)", r"value", "guarded: `if value.len() < 2 { return Err }`; the first and last bytes are the ASCII quotes of the grammar's string rule"),
+    (r"other_parser::parse_primitive$", "(index|arith)", r"value", "guarded: `if value.len() < 2 { return Err }`; the first and last bytes are the ASCII quotes of the grammar's string rule", ["before:value.len() < 2"]),
     (r"pipe_runner::run_pipe$", "unwrap", r"results\.last_mut\(\)", "results starts as vec![data] and is only pushed to"),
     (r"iterable::IterableKind::read$", "index", r"indexes\[0\]", "unreachable statement: the loop above returns as soon as the last index is consumed, and it starts with a non-empty list"),
-    (r"iterable::IterableKind::read$", "index", r"v\[i\]", "match guard `if i < v.len()` on the same arm / check_bounds! expansion"),
+    (r"iterable::IterableKind::read$", "index", r"v\[i\]", "match guard `if i < v.len()` on the same arm / check_bounds! expansion", ["(i < v.len())"]),
     (r"ApplyOp for u64>::apply_unary_op$", "arith", r"-\(\*self as _\)", "PositiveInteger values come from literals, lengths and ranges, all <= i64::MAX, so the cast is lossless and the negation cannot overflow"),
 ]
 
@@ -91,13 +91,17 @@ def main():
     out = collections.OrderedDict()
     unmatched = []
     for t in todo:
-        for fr, kind, tr, reason in RULES:
+        for rule in RULES:
+            fr, kind, tr, reason = rule[:4]
+            requires = rule[4] if len(rule) > 4 else None
             if re.search(fr, t["fn"]) and re.match("^(%s)$" % kind, t["kind"]) and re.search(tr, t["text"]):
                 key = (t["fn"], t["kind"], t["text"])
                 if key in out:
                     out[key]["count"] += 1
                 else:
                     out[key] = {"fn": t["fn"], "kind": t["kind"], "text": t["text"], "count": 1, "reason": reason}
+                    if requires:
+                        out[key]["requires"] = requires
                 break
         else:
             unmatched.append(t)
